@@ -27,6 +27,8 @@ import sys
 import time
 import traceback
 
+from vt.core.budget import CaseTimeout, alarm, confirm_hang
+
 VERIF = os.path.dirname(os.path.dirname(os.path.dirname(os.path.abspath(__file__))))
 PY = "/venv/bin/python"
 
@@ -45,6 +47,24 @@ def load_prop(pid):
 
 
 # ---------------------------------------------------------------- worker
+
+
+def decide_case_hang(mod, pid, seed, index, tier, plan):
+    """The wall-clock guard of a case fired.  That is only a suspicion: the case is re-run under the step budget
+    (sys.monitoring LINE/JUMP events inside the repository's sources); exceeding it is a deterministic verdict that
+    repository code loops (violation 'hang@<function>'), finishing within it means the machine was slow (inconclusive)."""
+    limit = plan.get("case_steps", 40_000_000)
+    try:
+        verdict, info = confirm_hang(lambda: mod.run_case(index, case_rng(seed, pid, index), tier), limit)
+    except CaseTimeout:
+        verdict, info = "slow", "guard fired again"
+    if verdict == "hang":
+        where = ":".join(str(info).split(":")[:2])
+        return {"violations": [{"key": f"{pid}/hang@{where}", "what": f"case {index} does not terminate: more than {limit} monitored "
+                                f"steps inside the repository, last at {info}", "witness": {"index": index, "where": info}}],
+                "counters": {"case_hangs": 1}, "evals": 0}
+    return {"inconclusive": f"case-slow ({str(info)[:60]})", "counters": {"case_slow": 1}, "evals": 0}
+
 
 
 def worker_main(argv):
@@ -66,7 +86,10 @@ def worker_main(argv):
             break
         rng = case_rng(seed, pid, index)
         try:
-            r = mod.run_case(index, rng, tier)
+            with alarm(plan.get("case_alarm", 150)):
+                r = mod.run_case(index, rng, tier)
+        except CaseTimeout:
+            r = decide_case_hang(mod, pid, seed, index, tier, plan)
         except Exception:
             res["errors"].append({"index": index, "trace": traceback.format_exc()[-3000:]})
             continue
